@@ -193,7 +193,8 @@ class Tensor:
             raise RuntimeError("Only floating point Tensors can require gradients")
         self._requires_grad = req_grad
         self._retain_grad = False
-        self._children = children
+        # only a tensor that is part of a differentiable graph needs to keep its operands alive
+        self._children = children if req_grad else ()
         self._operation = operation
         self._name = name
         self._initialized = True
